@@ -43,3 +43,21 @@ def synth_inputs(ctx, wd, seeds, count=2, versions=None, types=None, harness=Non
     for (label, p, line), o in zip(jobs, out):
         (ok if o == "ok ok" else bad).append((label, p, o))
     return [(l, p) for l, p, _ in ok], bad
+
+
+def constructed_inputs(ctx, wd, harness=None):
+    """hand-constructed inputs that plain samples/generated instances do not contain: loose (unreferenced) block chains stored
+    children-before-parents, and NiSourceTexture paths that the loader rewrites"""
+    h = harness or ctx.harness
+    jobs = []
+    for v in ("fo3", "sk", "sse", "fo4"):
+        for n in (1, 3, 5):
+            p = os.path.join(wd, f"con-loose-{v}-{n}.nif")
+            jobs.append((f"loosechain/{v}/{n}", p, f"fs new:{v} loosechain:{n} save:{p}:raw"))
+    dirty = ["  C:/Games/Data/Textures/armor//iron.dds ", "textures\\clean.dds", "/x/y.dds"]
+    for v in ("fo3", "ob"):
+        for k, d in enumerate(dirty):
+            p = os.path.join(wd, f"con-tex-{v}-{k}.nif")
+            jobs.append((f"texprop/{v}/{k}", p, f"fs new:{v} texprop:{d.encode().hex()} loosechain:2 save:{p}:raw"))
+    out = C.run_lines_parallel(h, [j[2] for j in jobs])
+    return [(l, p) for (l, p, _), o in zip(jobs, out) if all(x.startswith("ok") for x in o.split(" "))]
